@@ -374,7 +374,7 @@ expired one it does nothing.  With punctual timers and immediately starting goro
 (the check `d.timer == t` always succeeds there).  Here the environment decides when timers expire (at or after their
 deadline) and when the goroutines start. -/
 
-structure LTimer where
+structure DLTimer where
   id : Nat
   deadline : Int
   /-- ghost: position and instant of the call that created it -/
@@ -384,7 +384,7 @@ structure LTimer where
   expired : Bool := false
 deriving Repr, BEq, DecidableEq
 
-structure LRun where
+structure DLRun where
   /-- instant at which the debounced function started -/
   f : Int
   id : Nat
@@ -402,8 +402,8 @@ structure DLState where
   nextId : Nat := 0
   /-- `d.timer`: the identity of the current timer -/
   cur : Option Nat := none
-  timers : List LTimer := []
-  runs : List LRun := []
+  timers : List DLTimer := []
+  runs : List DLRun := []
   /-- ghost: position of the most recent `call` or `cancel` event, and whether it was a call -/
   lastEv : Option (Nat × Bool) := none
 deriving Repr, BEq
@@ -419,7 +419,7 @@ inductive DLEv where
 deriving Repr, DecidableEq, Inhabited
 
 /-- `d.timer.Stop()`: a timer that has not expired is removed; an expired one is left alone -/
-def stopCur (s : DLState) : List LTimer :=
+def stopCur (s : DLState) : List DLTimer :=
   match s.cur with
   | none => s.timers
   | some c => s.timers.filter fun t => !(t.id == c && !t.expired)
